@@ -14,7 +14,7 @@ func init() {
 	Registry["C01"] = c01
 	Metas["C01"] = Meta{Level: "other", NeedCG: true, Technique: "static analysis: exhaustive evaluation of every quorum-threshold expression found in SSA, counted-once typestate on tally sites, edge-dominance of commit gating and linkage checks",
 		Explain: "Static analysis of the premises the agreement argument rests on (quorum intersection + commit gating + linkage); the agreement property itself quantifies over interleavings of >=4 machines against an adversary and is not decided. Decided: (R1) every comparison in node code whose operand is arithmetic over ValidatorSet.TotalVotingPower() is, by exhaustive evaluation over 0<=T<=240, 0<=x<=T+1, pointwise equal to 3x>2T or its negation, and each consumer uses the right polarity; (R2) every tally of voting power counts a validator at most once (range-indexed, slot-guarded or map-miss-guarded addition); (R3) the block is saved/applied in finalizeCommit only under a +2/3 precommit majority for exactly that block and after validation; (R4) block validation enforces height = last+1 and LastBlockID = the state's on every success path. (R5) the cached total voting power (the quorum denominator) is invalidated by every mutation of the set and has no incremental writer. The locking rules are decided under C04, the signer under C03, WAL under C07.",
-		Assume: []string{"voting powers are non-negative and total power is far below 2^63 (the code's own NOTE)", "the integer threshold predicate is periodic in T mod 3, so the evaluated range is complete absent overflow"},
+		Assume:  []string{"voting powers are non-negative and total power is far below 2^63 (the code's own NOTE)", "the integer threshold predicate is periodic in T mod 3, so the evaluated range is complete absent overflow"},
 	}
 }
 
@@ -30,7 +30,7 @@ func c01(c *Ctx) {
 	walSkipRule(c, "R6")
 	shared(c, "C04", c04R3, c04R4, c04R5)
 	shared(c, "C15", func(c *Ctx) { verifyCommitRule(c, "R7") })
-	shared(c, "C03", c03R3)
+	shared(c, "C03", c03R2, c03R3)
 }
 
 // quorumRule is shared by C01-R1, C14-R2 and C15.
